@@ -1,4 +1,5 @@
 """C20 - shipped adsorbates resolve uniquely; their thermodynamic data are consistent."""
+import copy
 import json
 import os
 
@@ -166,22 +167,22 @@ def check_random_casing(desc, ctx):
 # ---- thermodynamic consistency ------------------------------------------------------------------------------------------
 def strat_thermo():
     tab = K.backend_table()
-    return st.builds(lambda i, u1, u2, unit, order: {"adsorbate": tab[i][0], "u1": min(u1, u2), "u2": max(u1, u2), "unit": unit,
-                                                     "order": order},
+    return st.builds(lambda i, u1, u2, unit, order, fresh: {"adsorbate": tab[i][0], "u1": min(u1, u2), "u2": max(u1, u2),
+                                                            "unit": unit, "order": order, "fresh": fresh},
                      st.integers(0, len(tab) - 1), st.floats(0, 1), st.floats(0, 1), st.sampled_from(list(ru.PRESSURE_PA)),
-                     st.permutations(list(range(7))).map(list))
+                     st.permutations(list(range(12))).map(list), st.booleans())
 
 
 def check_thermo(desc, ctx):
     entry = next(e for e in K.backend_table() if e[0] == desc["adsorbate"])
     ads = K.get_adsorbate(desc["adsorbate"])
+    if desc.get("fresh"):
+        # a new object with the same content, whose backend has never been asked anything: any call may be the first one
+        ads = Adsorbate(ads.name, store=False, **copy.deepcopy(ads.properties))
     fluid = entry[1]
     T1 = K.temperature_for(entry, desc["u1"])
     T2 = K.temperature_for(entry, desc["u2"])
     unit = desc["unit"]
-    M = ads.molar_mass()
-    if not close(M, ru.molar_mass(fluid), 1e-9):
-        raise Violation(f"{ads.name}: molar_mass {M} != PropsSI {ru.molar_mass(fluid)}", tag="molar_mass")
     # every property call in a hypothesis-drawn order at the two temperatures, each against the independent PropsSI value:
     # the calls share one mutable CoolProp state, a value must not depend on which call came before
     from CoolProp.CoolProp import PropsSI as _P
@@ -195,6 +196,12 @@ def check_thermo(desc, ctx):
          lambda T: (_P("Hmolar", "T", T, "Q", 1, fluid) - _P("Hmolar", "T", T, "Q", 0, fluid)) / 1000),
         # surface tension is not part of the property (and not available for every fluid): it only perturbs the state
         ("surface_tension", lambda T: _st(T), None),
+        # the constants of the fluid (any of them may be the first question asked of a fresh object)
+        ("molar_mass", lambda T: ads.molar_mass(), lambda T: ru.molar_mass(fluid)),
+        ("p_triple", lambda T: ads.p_triple(), lambda T: _P("PTRIPLE", fluid)),
+        ("p_critical", lambda T: ads.p_critical(), lambda T: _P("PCRIT", fluid)),
+        ("t_triple", lambda T: ads.t_triple(), lambda T: ru.t_triple(fluid)),
+        ("t_critical", lambda T: ads.t_critical(), lambda T: ru.t_crit(fluid)),
     ]
 
     def _st(T):
@@ -215,6 +222,7 @@ def check_thermo(desc, ctx):
             raise Violation(f"{ads.name}: {name}({T}) = {got} != PropsSI {want} (previous call on the shared state: {prev})",
                             tag=f"call_order:{name}")
         prev = f"{name}({T})"
+    M = ads.molar_mass()
     psats = []
     for T in (T1, T2):
         # interleave calls at the other temperature so a stale shared state would show
